@@ -512,6 +512,29 @@ def defines(prog, cls, name):
                    for c in prog.mro(cls)[1:])
 
 
+def shared_descriptor(prog, cls, name):
+    """(descriptor class, its __set__, attribute) when the class-level attribute `name` is an instance of a package class
+    whose __set__ writes the value into an attribute of the descriptor object itself; else None."""
+    for k in prog.mro(cls):
+        node = k.class_attrs.get(name)
+        if node is None:
+            continue
+        if not isinstance(node, ast.Call):
+            return None
+        K = prog.resolve_class(k.module, node.func)
+        if K is None:
+            return None
+        _, setter = prog.find_method(K, "__set__")
+        if setter is None or len(setter.args.args) < 3:
+            return None
+        me, inst = setter.args.args[0].arg, setter.args.args[1].arg
+        for n in ast.walk(setter):
+            if isinstance(n, ast.Attribute) and isinstance(n.ctx, ast.Store) and isinstance(n.value, ast.Name) and n.value.id == me:
+                return K, setter, n.attr
+        return None
+    return None
+
+
 def ctor_wiring(run, prog, cls, rule):
     """Constructor arguments reach the attributes named after them: when a class keeps a public attribute
     with the name of one of its constructor parameters, the value left there by __init__ (with the base
@@ -528,6 +551,16 @@ def ctor_wiring(run, prog, cls, rule):
     params = [x.arg for x in a.posonlyargs + a.args][1:] + [x.arg for x in a.kwonlyargs]
     n = 0
     for pname in params:
+        shared = shared_descriptor(prog, cls, pname)
+        if shared is not None:
+            K, setter, attr = shared
+            run.fail(rule, f"{cls.name}.ctor.{pname}", f"{K.module.path}:{setter.lineno}", f"{K.name}.__set__",
+                     f"{cls.name}.{pname} = {K.name}() keeps the value in self.{attr}",
+                     f"`{pname}` of {cls.name} is a descriptor object of class {K.name} whose __set__ stores the value on the "
+                     f"descriptor itself (self.{attr}): there is one descriptor per class, so every instance of {cls.name} and "
+                     f"of its subclasses shares one `{pname}` -- constructing another object changes the `{pname}` of this one")
+            n += 1
+            continue
         if pname.startswith("_") or pname not in s.fields:
             continue
         n += 1
